@@ -76,6 +76,11 @@ with_rule = Fn(FM, "match_with_rule", slot="asm", ret="res", key="matcher::match
 )
 with_rule.unroll = [2, 3]
 
+find_la = Fn(FM, "find_lookahead_char", slot="asm", ret="res", key="matcher::find_lookahead_char", props=["C07", "C03"],
+    requires=[C("a_part_of_the_pattern", "at_pattern_part < pattern@.len()", ["C03"])],
+    ensures=[C("the_first_literal_after_the_slot_blanks_skipped", "res == next_literal(pattern@, at_pattern_part + 1)", ["C07"])],
+    loops={1: Loop(invariant=[C("only_blanks_skipped", "at_pattern_part < i <= pattern@.len() && next_literal(pattern@, i as int) == next_literal(pattern@, at_pattern_part + 1)")],
+                   decreases="pattern@.len() - i")})
 with_ruledef = Fn(FM, "match_with_ruledef", slot="asm", mode="stub", ret="res", key="matcher::match_with_ruledef",
     ensures=[C("walker_kept", "final(walker).key() == old(walker).key()"),
              C("candidates", "needs_consume_all_tokens ==> first_components(res@) == ruledef_candidates(defs, ruledef_ref.0 as int, old(walker).key())"), C("wf", WF_ALL)])
@@ -194,7 +199,7 @@ UNIT = Unit(
         Type(FR, "struct", "Ruledef", slot="asm"), Type("src/asm/defs/mod.rs", "struct", "DefList", slot="asm"),
         Type(FA, "struct", "AssemblyOptions", slot="asm"), Type(FA, "struct", "DriverSymbolDef", slot="asm"),
     ] + [f for f in deflist_fns("verify", "asm") if f.name == "get"] + [
-        Type(FMAP, "const", "MAX_PREFIX_SIZE", slot="asm"), Type(FMAP, "struct", "RuledefMapEntry", slot="asm", derive="Clone, Copy"), parse_prefix, query_prefixed, get_rule, begin_match, with_map, with_ruledef, Type(FT, "struct", "Token", slot="syntax", derive="drop"), Type(FT, "enum", "TokenKind", slot="syntax", derive="Clone, Copy"), w_char, w_over, w_next_token, w_next_char, with_expr, with_nested, with_rule, match_is_same, arg_is_same, exact_count, match_instr,
+        Type(FMAP, "const", "MAX_PREFIX_SIZE", slot="asm"), Type(FMAP, "struct", "RuledefMapEntry", slot="asm", derive="Clone, Copy"), parse_prefix, query_prefixed, get_rule, begin_match, with_map, with_ruledef, Type(FT, "struct", "Token", slot="syntax", derive="drop"), Type(FT, "enum", "TokenKind", slot="syntax", derive="Clone, Copy"), w_char, w_over, w_next_token, w_next_char, with_expr, with_nested, with_rule, find_la, match_is_same, arg_is_same, exact_count, match_instr,
     ],
     serves=["C07", "C01", "C03"],
     description="asm::matcher::match_instr: duplicate removal (is_same) and the literal-part precedence among the candidates of an instruction line",
